@@ -36,7 +36,7 @@ def main():
         open_sites = []
         for s in enumerate_sites(fn, ("K1", "K2", "K3", "K4")):
             how = discharge_const(s) or D.cond_rule(s) or D.folded_const_rule(s) or D.split_checked_rule(s) or D.type_rule(s) or D.guard_rule(s) \
-                or D.widened_rule(s) or D.size_rule(s) or D.slice_copy_rule(s) or D.counter_rule(s) or D.dead_arm_rule(s)
+                or D.widened_rule(s) or D.size_rule(s) or D.slice_copy_rule(s) or D.counter_rule(s) or D.dead_arm_rule(s) or D.str_idiom_rule(s)
             if not how:
                 open_sites.append("%s %s" % (s.kind, s.what))
         if short.startswith("ok_") and open_sites:
@@ -46,6 +46,6 @@ def main():
         else:
             print("ok   %s%s" % (short, (" (open: %s)" % open_sites) if open_sites else ""))
     print("engine selftest: %d cases, %d failures" % (n, bad))
-    return 1 if bad or n < 52 else 0
+    return 1 if bad or n < 57 else 0
 
 sys.exit(main())
